@@ -668,12 +668,14 @@ def t5(rep, src):
         return None
 
     def normal(cl):
-        """closure body with its first bound name replaced by a placeholder"""
+        """closure body with its first bound name replaced by a placeholder (on the AST: a method called like the parameter is left alone)"""
+        from .canon import subst
+
         names = pat_binds(cl["params"][0]) if cl["params"] else []
-        s = show(cl["body"], 0)
+        body = cl["body"]
         if names:
-            s = re.sub(r"\b%s\b" % re.escape(names[0]), "ENTRY", s)
-        return s.replace(" ", "")
+            body = subst(body, {names[0]: {"k": "path", "p": "ENTRY", "segs": ["ENTRY"], "l": 0}})
+        return show(body, 0).replace(" ", "")
 
     la, lb = lookup(fa), lookup(fb)
     if la is None or lb is None:
